@@ -57,6 +57,9 @@ type concWorld struct {
 	pool     []*model.Pattern
 	ballast  int // routes registered outside the key set: a deep chain of nested prefixes under /~
 	ballastM string
+	// handOff, when set (C05), receives the Snapshot() of a write transaction (SnapEnd 4): another task reads it while
+	// the transaction goes on - two distinct Txn values, each used by one goroutine
+	handOff func(*fox.Txn)
 }
 
 // ballast routes live under /~, which no key and no probe reaches; they only change the shape (depth) of the tree.
@@ -220,8 +223,9 @@ type CTxn struct {
 	Ops     []COp  // handle update delete has route
 	End     string // commit abort error panic
 	EndAt   int
+	PanicV  int // panic ending: which value (injectedPanicValue)
 	SnapAt  int // take a Snapshot()/Iter() after this many ops (-1 never)
-	SnapEnd int // what is done with that snapshot while the transaction stays open: 0 dropped, 1 Abort, 2 Commit, 3 a write through it (must be refused), then Abort
+	SnapEnd int // what is done with that snapshot while the transaction stays open: 0 dropped, 1 Abort, 2 Commit, 3 a write through it (must be refused), then Abort, 4 a second snapshot is handed to a reader task (C05)
 }
 
 func (o COp) String() string {
@@ -333,6 +337,7 @@ func genCTxn(src sim.Source, cw *concWorld, nextTag *int) *CTxn {
 		t.End, t.EndAt = "error", src.Intn("endat", n+1)
 	case e < 11:
 		t.End, t.EndAt = "panic", src.Intn("endat", n+1)
+		t.PanicV = src.Intn("panicvalue", 4)
 	default:
 		// the task's goroutine leaves through runtime.Goexit inside the transaction (nothing later in its program runs)
 		t.End, t.EndAt = "goexit", src.Intn("endat", n+1)
@@ -342,7 +347,7 @@ func genCTxn(src sim.Source, cw *concWorld, nextTag *int) *CTxn {
 	}
 	if src.Intn("snap", 4) == 3 {
 		t.SnapAt = src.Intn("snapat", n+1)
-		t.SnapEnd = src.Intn("snapend", 4)
+		t.SnapEnd = src.Intn("snapend", 5)
 	}
 	return t
 }
@@ -513,7 +518,7 @@ func (cw *concWorld) execTxnInto(s *sim.Sched, t *CTxn, out *COut) {
 		for i, op := range t.Ops {
 			if i == t.EndAt && t.End != "commit" {
 				if t.End == "panic" {
-					panic(injectedPanic{i})
+					panic(injectedPanicValue(t.PanicV, i))
 				}
 				if t.End == "goexit" {
 					runtime.Goexit()
@@ -536,6 +541,11 @@ func (cw *concWorld) execTxnInto(s *sim.Sched, t *CTxn, out *COut) {
 						out.Bad = fmt.Sprintf("Handle through a Snapshot() returned %v, want ErrReadOnlyTxn", err)
 					}
 					snap.Abort()
+				case 4:
+					if cw.handOff != nil {
+						_ = txn.Has(cw.keys[0].Method, cw.keys[0].Pat.Raw) // (the transaction has looked something up before)
+						cw.handOff(txn.Snapshot())
+					}
 				}
 			}
 			var o COut
@@ -551,7 +561,7 @@ func (cw *concWorld) execTxnInto(s *sim.Sched, t *CTxn, out *COut) {
 		}
 		if t.End != "commit" {
 			if t.End == "panic" {
-				panic(injectedPanic{len(t.Ops)})
+				panic(injectedPanicValue(t.PanicV, len(t.Ops)))
 			}
 			if t.End == "goexit" {
 				runtime.Goexit()
@@ -562,7 +572,7 @@ func (cw *concWorld) execTxnInto(s *sim.Sched, t *CTxn, out *COut) {
 	}
 	defer func() {
 		if p := recover(); p != nil {
-			if _, ok := p.(injectedPanic); !ok {
+			if !isInjectedPanic(p, &TxnProg{End: t.End, PanicV: t.PanicV}) {
 				panic(p)
 			}
 		}
